@@ -421,6 +421,94 @@ static Verdict c15_composite(const Case& c) {
   return V;
 }
 
+// ================================================================================================ C15 number level
+static LD from_bits(int nt, uint64_t lo, uint64_t hi) {
+  if (nt == 0) { uint32_t b = (uint32_t)lo; float f; std::memcpy(&f, &b, 4); return f; }
+  if (nt == 1) { double f; std::memcpy(&f, &lo, 8); return f; }
+  LD v = 0; unsigned char buf[16] = {0}; std::memcpy(buf, &lo, 8); uint16_t se = (uint16_t)hi; std::memcpy(buf + 8, &se, 2); std::memcpy(&v, buf, 10); return v;
+}
+static int max_digits10(int nt) { return nt == 0 ? 9 : nt == 1 ? 17 : 21; }
+// returns "" if the text is the canonical form of x, else a description
+static std::string number_format_error(int nt, LD x, const std::string& t) {
+  const int want = max_digits10(nt) + 1;
+  const LD a = std::fabs(x);
+  if (x == 0) return t == "0" ? "" : "zero must print as 0";
+  size_t p = 0; if (t[p] == '-') p++;
+  if ((x < 0) != (t[0] == '-')) return "sign";
+  // 0.001 is not representable in binary: decide |x| >= 0.001 exactly as 1000 |x| >= 1 in binary128 (64 + 10 bits: the product is exact)
+  const bool fixed = (Q)a * 1000 >= 1 && a < (LD)10000;
+  const size_t epos = t.find('e');
+  if (fixed != (epos == std::string::npos)) return fixed ? "fixed notation expected for 0.001 <= |x| < 10000" : "scientific notation expected outside [0.001, 10000)";
+  std::string mant = t.substr(p, epos == std::string::npos ? std::string::npos : epos - p);
+  const size_t dot = mant.find('.');
+  if (dot == std::string::npos || dot == 0 || dot + 1 >= mant.size()) return "malformed mantissa";
+  std::string digits;
+  for (char ch : mant) { if (ch == '.') continue; if (ch < '0' || ch > '9') return "unexpected character"; digits += ch; }
+  if (!fixed) {
+    if (dot != 1 || mant[0] == '0') return "scientific mantissa must be d.ddd with a non-zero leading digit";
+    const std::string ex = t.substr(epos + 1);
+    if (ex.size() < 3 || (ex[0] != '+' && ex[0] != '-')) return "exponent must be e[+-]dd";
+    for (size_t k = 1; k < ex.size(); k++) if (ex[k] < '0' || ex[k] > '9') return "exponent digits";
+  } else {
+    if (dot > 1 && mant[0] == '0') return "leading zero";
+  }
+  size_t lead = 0; while (lead < digits.size() && digits[lead] == '0') lead++;
+  const int sig = (int)(digits.size() - lead);
+  if (sig != want) return fmt("%d significant digits, expected max_digits10 + 1 = %d", sig, want);
+  return "";
+}
+static Verdict check_number(int nt, LD x, const VfQuantity* R) {
+  unsigned long len; const char* p = R->print_number(x, &len); const std::string t(p, len);
+  const std::string err = number_format_error(nt, x, t);
+  if (!err.empty()) return Verdict::fail(fmt("Print<%s>(%s) = \"%s\": %s", ntinfo(nt).name, hexld(x).c_str(), t.c_str(), err.c_str()));
+  LD back = 0; if (!R->parse_number(t.data(), t.size(), &back)) return Verdict::fail(fmt("ParseNumber<%s>(\"%s\") has no value (printed from %s)", ntinfo(nt).name, t.c_str(), hexld(x).c_str()));
+  if (x == 0 ? back != 0 : !same_bits(nt, back, x)) return Verdict::fail(fmt("ParseNumber<%s>(Print(%s)) = ParseNumber(\"%s\") = %s: not the same number", ntinfo(nt).name, hexld(x).c_str(), t.c_str(), hexld(back).c_str()));
+  return Verdict();
+}
+static bool is_normal_in(int nt, LD x) { if (x == 0) return true; if (!std::isfinite(x)) return false; const LD a = std::fabs(x); return a >= std::ldexp((LD)1, ntinfo(nt).emin) && a < std::ldexp((LD)2, ntinfo(nt).emax); }
+// a block of consecutive float bit patterns (exhaustive tier) or a strided sweep (quick tier)
+static Verdict c15_float_block(const Case& c) {
+  const uint64_t start = (uint64_t)c.i[0], count = (uint64_t)c.i[1], stride = (uint64_t)c.i[2];
+  const VfQuantity* R = row(0, 0);
+  long evals = 0;
+  for (uint64_t k = 0; k < count; k++) {
+    const uint64_t b = start + k * stride; if (b > 0xffffffffull) break;
+    const LD x = from_bits(0, b, 0);
+    if (!is_normal_in(0, x)) continue;
+    evals++;
+    Verdict v = check_number(0, x, R);
+    if (!v.ok) { v.msg += fmt(" [bit pattern 0x%08llx]", (unsigned long long)b); return v; }
+  }
+  Verdict V; V.sub_evals = evals; V.sub_nontrivial = evals; V.nontrivial = evals > 0; V.cls = stride == 1 ? "float;consecutive-bit-patterns" : "float;strided-bit-patterns";
+  V.show = fmt("float bit patterns 0x%08llx + k*%llu, k < %llu: %ld normal values", (unsigned long long)start, (unsigned long long)stride, (unsigned long long)count, evals);
+  return V;
+}
+static Verdict c15_number(const Case& c) {
+  const int nt = (int)c.i[0]; const LD x = c.r[0];
+  if (!is_normal_in(nt, x)) return Verdict::skip("not-normal");
+  Verdict V = check_number(nt, x, row(nt, 0));
+  if (!V.ok) return V;
+  const LD a = std::fabs(x);
+  V.cls = std::string(ntinfo(nt).name) + (x == 0 ? ";zero" : (Q)a * 1000 < 1 ? ";scientific-small" : a < 10000 ? ";fixed" : ";scientific-large"); V.nontrivial = x != 0;
+  return V;
+}
+// boundary neighbourhoods of every notation interval, stratified random bit patterns over every binade
+static rc::Gen<Case> gen_c15_number(int nt) {
+  static const LD bounds[] = {0.001L, 0.01L, 0.1L, 1, 10, 100, 1000, 10000, 100000, 1e-4L};
+  auto near = rc::gen::map(rc::gen::tuple(rc::gen::elementOf(std::vector<LD>(bounds, bounds + 10)), irange(-64, 64), irange(0, 1)), [=](const std::tuple<LD, int, int>& t) {
+    LD b = round_to(nt, std::get<0>(t)); const int k = std::get<1>(t);
+    // k-th neighbour of the rounded boundary in type nt
+    LD x = b; for (int i = 0; i < std::abs(k); i++) x = k > 0 ? x + ulp_at(nt, x) : x - ulp_at(nt, std::nextafter(x, (LD)0) );
+    x = round_to(nt, x); return std::get<2>(t) ? -x : x; });
+  auto edges = rc::gen::map(rc::gen::tuple(irange(0, 3), irange(0, 32), irange(0, 1)), [=](const std::tuple<int, int, int>& t) {
+    const LD mn = std::ldexp((LD)1, ntinfo(nt).emin), mx = std::ldexp((LD)2 - eps_of(nt), ntinfo(nt).emax); const int k = std::get<1>(t);
+    LD x = std::get<0>(t) == 0 ? mn + k * ulp_at(nt, mn) : std::get<0>(t) == 1 ? mx - k * ulp_at(nt, mx) : std::get<0>(t) == 2 ? (LD)0 : std::ldexp((LD)1, k - 16);
+    return std::get<2>(t) ? -x : x; });
+  auto strat = gen_real(nt, ntinfo(nt).emin, ntinfo(nt).emax, kNeg | kZero);
+  auto mid = gen_real(nt, -14, 18, kNeg);
+  return rc::gen::map(rc::gen::oneOf(near, edges, strat, strat, mid, mid), [=](LD x) { Case c; c.i = {nt}; c.r = {x}; return c; });
+}
+
 // ================================================================================================
 int main(int argc, char** argv) {
   load_rows();
@@ -490,6 +578,25 @@ int main(int argc, char** argv) {
     s.rule = "every quantity type x numeric type; generated unit (or none) and components; Print/JSON/XML/YAML/operator<< must equal a reference formatter written from the statement, assembled from PhQ::Print(component in that unit) "
              "and the abbreviation; JSON accepted by a strict RFC 8259 parser and every numeric field parses back to the component bit for bit; non-trivial: components pairwise distinct";
     subs.push_back(s);
+  }
+  {
+    Sub s; s.name = "c15.numbers"; s.property = "C15"; s.instances = 3; s.n_quick = 300000; s.n_thorough = 3000000; s.gen = gen_c15_number; s.run = c15_number;
+    s.instance_name = [](int inst) { return std::string(ntinfo(inst).name); };
+    s.rule = "Print<T>(x) for finite normal x in float, double, long double: +-64 neighbours of every notation boundary (0.0001 ... 100000), the ends of the normal range, random bit patterns stratified over every binade, and a dense "
+             "middle range; oracle: fixed notation iff 0.001 <= |x| < 10000, exactly max_digits10 + 1 significant digits counted from the first non-zero digit, d.ddde[+-]dd in scientific notation, 0 for +-0, "
+             "ParseNumber<T>(Print(x)) has the bits of x; non-trivial: x != 0";
+    subs.push_back(s);
+  }
+  {
+    // quick: every 997th float bit pattern (4.3 M values); thorough (bin/check runs 16 shards in parallel): ALL 2^32 bit patterns
+    const bool thorough = argc > 2 && std::string(argv[2]) == "thorough";
+    const bool exhaustive = thorough || (argc > 1 && std::string(argv[1]) == "replay");
+    Sub s; s.name = exhaustive ? "c15.float_all" : "c15.float_sweep"; s.property = "C15"; s.n_quick = 1; s.n_thorough = 1; s.exhaustive = exhaustive; s.run = c15_float_block;
+    if (exhaustive) { s.instances = 4096; s.gen = [](int inst) { Case c; c.i = {(long long)inst << 20, 1 << 20, 1}; return rc::gen::just(c); }; }
+    else { s.instances = 64; s.gen = [](int inst) { Case c; c.i = {(long long)inst * 997 * 67324 + (long long)(env_seed() % 997), 67324, 997}; return rc::gen::just(c); }; }
+    s.rule = exhaustive ? "exhaustive: all 2^32 float bit patterns (normal values), same oracle" : "every 997th float bit pattern (offset by the seed), same oracle";
+    subs.push_back(s);
+    if (argc > 1 && std::string(argv[1]) == "replay") { Sub s2 = s; s2.name = "c15.float_sweep"; subs.push_back(s2); }
   }
   return engine_main(argc, argv, subs);
 }
